@@ -377,4 +377,39 @@ theorem subLoop_run (cx : Ctx) (L : Leaves cx) (o : String) (ho : o ≠ "other")
       · intro z hz1 hz2
         rw [h3 z hz1 hz2, hne z hz1 hz2]
 
+/-! ### the two loops as statements of the dump -/
+
+theorem addFor_stmt (cx : Ctx) (L : Leaves cx) (o : String) (ho : o ≠ "other") (ho2 : "others" ≠ o) (ys : List Nat) (env : Env)
+    (c : Coll) (hO : env.lookup o = some (.obj (ofColl c))) (hH : env.lookup "hasTag" = some (.bound o "_hasTag"))
+    (hV : env.lookup "others" = some (.list (embE ys))) :
+    ∃ env', execS cx env (.forS "other" (.var "others") (addBody o)) = (env', .next)
+      ∧ env'.lookup o = some (.obj (ofColl (c.iadd ys)))
+      ∧ ∀ z, z ≠ o → z ≠ "other" → env'.lookup z = env.lookup z := by
+  have hv : eval cx env (.var "others") = .ok (.list (embE ys)) := by simp [eval, hV]
+  obtain ⟨env', h1, h2, h3⟩ := addLoop_run cx L o ho
+    (fun env' => !(Val.list (embE ys)).mutable || !(Expr.var "others").isVar
+      || decide (eval cx env' (.var "others") = .ok (.list (embE ys))))
+    (.list (embE ys)) (by intro e h; simp [eval, h]) ho2 ys env c hO hH hV
+  refine ⟨env', ?_, h2, h3⟩
+  rw [execS, hv]
+  simp only [iterItems, Expr.isVar, Bool.or_true, Bool.true_or, if_true]
+  exact h1
+
+theorem subFor_stmt (cx : Ctx) (L : Leaves cx) (o : String) (ho : o ≠ "other") (ho2 : "others" ≠ o) (xs : List Nat) (env : Env)
+    (c : Coll) (hO : env.lookup o = some (.obj (ofColl c))) (hH : env.lookup "hasTag" = some (.bound o "_hasTag"))
+    (hV : env.lookup "others" = some (.list (embE xs))) :
+    ∃ env', execS cx env (.forS "other" (.var "others") (subBody o))
+        = (env', if (isubRun c xs).2 then .exc .valueError else .next)
+      ∧ env'.lookup o = some (.obj (ofColl (isubRun c xs).1))
+      ∧ ∀ z, z ≠ o → z ≠ "other" → env'.lookup z = env.lookup z := by
+  have hv : eval cx env (.var "others") = .ok (.list (embE xs)) := by simp [eval, hV]
+  obtain ⟨env', h1, h2, h3⟩ := subLoop_run cx L o ho
+    (fun env' => !(Val.list (embE xs)).mutable || !(Expr.var "others").isVar
+      || decide (eval cx env' (.var "others") = .ok (.list (embE xs))))
+    (.list (embE xs)) (by intro e h; simp [eval, h]) ho2 xs env c hO hH hV
+  refine ⟨env', ?_, h2, h3⟩
+  rw [execS, hv]
+  simp only [iterItems, Expr.isVar, Bool.or_true, Bool.true_or, if_true]
+  exact h1
+
 end AHP.PyAst
